@@ -65,6 +65,9 @@ def run_case(case):
     if numeric:
         xs = [int(v) if isinstance(v, str) and v.isdigit() else v for v in xs]
     X = pd.DataFrame({"h": pd.Series(xs, dtype=object)})
+    if case.get("index") == "dup":  # repeated index labels (frames concatenated without ignore_index): rows i and i+m share a label
+        m = (len(xs) + 1) // 2
+        X.index = [i % m for i in range(len(xs))]
     mf = case["min_freq"]
     res = {"violations": [], "sample": dict(case)}
     viol = res["violations"]
@@ -179,6 +182,8 @@ def enumerate_cases(tier, seed):
                 for mf in mfs:
                     for rn in (0, 1) if (tier == "thorough" or si < 2) else (0,):
                         cases.append({"shape": si, "counts": list(cnt), "n_nan": n_nan, "n_unknown": 0, "min_freq": mf, "unknown_handling": "raise", "rename": (rn + seed) % 2 if False else rn})
+                    if si < 2 or tier == "thorough":  # repeated index labels
+                        cases.append({"shape": si, "counts": list(cnt), "n_nan": n_nan, "n_unknown": 0, "min_freq": mf, "unknown_handling": "raise", "rename": 0, "index": "dup"})
                     if si < 2 or tier == "thorough":  # the data also holds labels of intermediate nodes
                         for pc in ([3, 0], [8, 8], [1, 5]):
                             cases.append({"shape": si, "counts": list(cnt), "n_nan": n_nan, "n_unknown": 0, "min_freq": mf, "unknown_handling": "raise", "rename": 0, "parent_counts": pc})
